@@ -16,8 +16,10 @@ import (
 	"sync/atomic"
 	"time"
 
+	"github.com/jmoiron/sqlx"
 	clconfig "github.com/metrico/cloki-config/config"
 	"github.com/metrico/qryn/reader/model"
+	"github.com/metrico/qryn/reader/utils/dsn"
 )
 
 // Cell is one scripted value. Exactly one field is set (none = NULL).
@@ -96,6 +98,9 @@ type ResultSet struct {
 	FailAfter int      `json:"fail_after"`       // >=0: Next fails with an error after that many rows (rows.Err)
 	QueryErr  bool     `json:"query_err"`        // the statement itself fails
 	Repeat    int      `json:"repeat,omitempty"` // serve the row list this many times over (large result sets, compactly)
+	// the database is still working on the statement when the caller gives up: QueryContext blocks until the statement's
+	// context is cancelled (the client hung up, the limit was reached, a timeout fired) and then fails with ctx.Err()
+	Stall bool `json:"stall,omitempty"`
 }
 
 // Boot scripts dbVersion.GetVersionInfo's two statements (issued on a cold version cache): "" = answered,
@@ -128,6 +133,9 @@ var logSQL = os.Getenv("READFUZZ_LOGSQL") != ""
 var openRows int64 // result sets handed out and not yet closed (connection held)
 var queriesSeen int64
 var stmtsSeen int64 // statements other than GetVersionInfo's two bootstrap statements
+var poolRebuilds int64 // how often StableSqlxDBWrapper closed its pool and asked GetDB for a new one
+var stalledCh = make(chan struct{}, 64) // a statement has reached the database and is stalled there
+const stallMax = 2500 * time.Millisecond // a stalled statement gives up by itself after this long (safety net of the harness)
 
 type drv struct{}
 type conn struct{}
@@ -172,6 +180,18 @@ func (*conn) QueryContext(ctx context.Context, q string, args []driver.NamedValu
 			if strings.Contains(q, sc.sets[i].Match) {
 				if sc.sets[i].QueryErr {
 					return nil, errors.New("scripted: statement failed")
+				}
+				if sc.sets[i].Stall {
+					select {
+					case stalledCh <- struct{}{}:
+					default:
+					}
+					select {
+					case <-ctx.Done():
+						return nil, ctx.Err()
+					case <-time.After(stallMax):
+						return nil, errors.New("scripted: statement timed out on the server")
+					}
 				}
 				atomic.AddInt64(&openRows, 1)
 				return &rowsT{rs: &sc.sets[i], counted: true}, nil
@@ -228,8 +248,12 @@ func (r *rowsT) Next(dest []driver.Value) error {
 
 // ---------------------------------------------------------------- registry
 
+// The session of the registry is the REAL dsn.StableSqlxDBWrapper (as reader/dbRegistry builds it: DB, GetDB, Name) over a
+// database/sql pool on the scripted driver: every statement of the reader goes through its RWMutex and its
+// close-and-reopen-the-pool error path. Only GetName is overridden (a fresh name per request = a cold version cache) and
+// Close is a no-op (the harness keeps the registry for the life of the process).
 type fakeDB struct {
-	db *sql.DB
+	*dsn.StableSqlxDBWrapper
 }
 
 func (f *fakeDB) GetName() string {
@@ -238,16 +262,7 @@ func (f *fakeDB) GetName() string {
 	}
 	return "verif"
 }
-func (f *fakeDB) QueryCtx(ctx context.Context, query string, args ...any) (*sql.Rows, error) {
-	return f.db.QueryContext(ctx, query, args...)
-}
-func (f *fakeDB) ExecCtx(ctx context.Context, query string, args ...any) error {
-	_, err := f.db.ExecContext(ctx, query, args...)
-	return err
-}
-func (f *fakeDB) Conn(ctx context.Context) (*sql.Conn, error) { return f.db.Conn(ctx) }
-func (f *fakeDB) Begin() (*sql.Tx, error)                     { return f.db.Begin() }
-func (f *fakeDB) Close()                                      {}
+func (f *fakeDB) Close() {}
 
 type fakeRegistry struct {
 	m *model.DataDatabasesMap
@@ -258,16 +273,24 @@ func (r *fakeRegistry) Run()                                                    
 func (r *fakeRegistry) Stop()                                                      {}
 func (r *fakeRegistry) Ping() error                                                { return nil }
 
-func newRegistry() *fakeRegistry {
-	sql.Register("verifscript", drv{})
+func openPool() *sqlx.DB {
 	db, err := sql.Open("verifscript", "")
 	if err != nil {
 		panic(err)
 	}
 	db.SetMaxOpenConns(64)
 	db.SetConnMaxLifetime(time.Hour)
+	return sqlx.NewDb(db, "clickhouse")
+}
+
+func newRegistry() *fakeRegistry {
+	sql.Register("verifscript", drv{})
+	getDB := func() *sqlx.DB {
+		atomic.AddInt64(&poolRebuilds, 1)
+		return openPool()
+	}
 	return &fakeRegistry{m: &model.DataDatabasesMap{
 		Config:  &clconfig.ClokiBaseDataBase{Name: "verif", Node: "n1"},
-		Session: &fakeDB{db: db},
+		Session: &fakeDB{&dsn.StableSqlxDBWrapper{DB: openPool(), GetDB: getDB, Name: "n1"}},
 	}}
 }
